@@ -276,6 +276,12 @@ impl Rig {
                 }
             }
         }
+        if params.social_stake > 0 {
+            // the second node stakes for the blocks it produces
+            for i in 0..6u64 {
+                iss.push((keys[1].0, 4 * params.social_stake + 10 + i));
+            }
+        }
         let g = bo(&rt, make_genesis(&prod, 1_000_000, &iss)).unwrap();
         let thread = new_thread_rig(&prod, params);
         let mut r = Rig {
@@ -939,9 +945,6 @@ impl Rig {
     /// the second node produces the next block and puts every pooled Normal transaction of the
     /// producer into it (both nodes add it): the producer's pool is emptied by somebody else's block
     fn do_peer_block(&mut self, own: bool, log: &mut Vec<String>, findings: &mut Vec<(String, Option<&'static str>)>) {
-        if self.params.social_stake > 0 {
-            return;
-        }
         let tip = self.tip();
         let mut txs: Vec<Transaction> = self
             .prod
@@ -973,12 +976,42 @@ impl Rig {
         let ts = tip.timestamp + 2 * self.params.heartbeat + 5_000;
         let with_gt = Rig::needs_gt(&self.peer, tip.hash);
         let n = txs.len();
-        let b = match bo(&self.rt, make_block(&self.peer, tip.hash, ts, txs, with_gt, self.nonce)) {
-            Ok(b) => b,
-            Err(e) => {
-                self.stat("peer-block:create-failed");
-                log.push(format!("{{\"op\":\"peer-block\",\"skipped\":{}}}", jstr(&e)));
-                return;
+        let b = if self.params.social_stake > 0 {
+            // with staking the second node produces like any node: its own pool, ticket map and
+            // bundle_block (which builds the staking transaction from its wallet)
+            for t in txs {
+                bo(&self.rt, self.peer.mempool.add_transaction_if_validates(t, &self.peer.blockchain));
+            }
+            if with_gt {
+                let (pk, sk) = (self.peer.pk, self.peer.sk);
+                let gttx = bo(&self.rt, golden_ticket_tx(tip.hash, tip.difficulty, &pk, &sk, self.nonce));
+                bo(&self.rt, self.peer.mempool.add_golden_ticket(gttx));
+            }
+            let gt = self.peer.mempool.golden_tickets.get(&tip.hash).map(|(t, _)| t.clone());
+            let made = {
+                let rt = &self.rt;
+                let peer = &mut self.peer;
+                rt.block_on(peer.mempool.bundle_block(&peer.blockchain, ts, gt, &peer.cfg, &peer.storage))
+            };
+            match made {
+                Some(b) => b,
+                None => {
+                    self.stat("peer-block:not-produced");
+                    log.push("{\"op\":\"peer-block\",\"skipped\":\"the second node's bundle_block produced nothing\"}".to_string());
+                    // leave its pool empty for the next time
+                    self.peer.mempool.transactions.clear();
+                    self.peer.mempool.rebuild_utxo_map();
+                    return;
+                }
+            }
+        } else {
+            match bo(&self.rt, make_block(&self.peer, tip.hash, ts, txs, with_gt, self.nonce)) {
+                Ok(b) => b,
+                Err(e) => {
+                    self.stat("peer-block:create-failed");
+                    log.push(format!("{{\"op\":\"peer-block\",\"skipped\":{}}}", jstr(&e)));
+                    return;
+                }
             }
         };
         let r1 = bo(&self.rt, self.prod.add_block(b.clone()));
@@ -1539,7 +1572,12 @@ impl Rig {
                             }
                         }
                         let have: BTreeSet<_> = self.prod.mempool.transactions.keys().cloned().collect();
-                        if want != have {
+                        // (create first leaves out what collides with a rebroadcast: such transactions -- their
+                        // input belongs to the block this block rebroadcasts -- are not handed back)
+                        let left_out_ok = |sig: &saito_core::core::defs::SaitoSignature| {
+                            pool_txs.iter().any(|t| t.signature == *sig && t.from.iter().any(|sl| sl.amount > 0 && src > 0 && sl.block_id == src))
+                        };
+                        if !(have.is_subset(&want) && want.difference(&have).all(|sig| left_out_ok(sig))) {
                             findings.push((format!("Block::create failed on the injected double spend and the pool was not handed back: {} transactions before, {} after", want.len(), have.len()), None));
                         }
                         let sum: u64 = self.prod.mempool.transactions.values().fold(0u64, |a, t| a.wrapping_add(t.total_work_for_me));
@@ -1716,6 +1754,10 @@ impl Rig {
                 } else {
                     self.stat("gate-vs-block-work:enough");
                 }
+                let n_stake = fin.transactions.iter().filter(|t| t.transaction_type == TransactionType::BlockStake).count();
+                if self.prod.blockchain.social_stake_requirement != 0 && n_stake != 1 {
+                    diffs.push(format!("staking transactions in the block: {} (exactly one is required; the wallet's staking transaction {})", n_stake, if stake_pred.is_some() { "was built" } else { "could not be built" }));
+                }
                 if fin.timestamp != ts {
                     diffs.push(format!("timestamp: block {} / bundle argument {}", fin.timestamp, ts));
                 }
@@ -1817,7 +1859,9 @@ impl Rig {
                 // fix 1214e31 leaves out pooled transactions that collide with a rebroadcast, after the
                 // gate has counted their routing work
                 let left_out = pool_txs.iter().filter(|t| !fin.transactions.iter().any(|b| b.signature == t.signature)).count();
-                if !aged_pool.is_empty() && left_out > 0 && fin.total_work < work_needed && cached_work >= work_needed {
+                // (its only symptom is the missing work: any other difference between header and
+                // recomputed values is a different matter)
+                if !aged_pool.is_empty() && left_out > 0 && fin.total_work < work_needed && cached_work >= work_needed && diffs.len() == 1 {
                     causes.push(K_LEFTOUT);
                 }
                 if outcome == Outcome::Split {
@@ -2155,7 +2199,7 @@ fn random_spec(rig: &Rig, plan: &Plan, rng: &mut Rng, round: usize) -> RoundSpec
     let mut peer_own = false;
     let mut fork = false;
     let mut items2 = vec![];
-    if plan.stake == 0 && round >= 2 {
+    if round >= 2 {
         match rng.below(16) {
             0 => {
                 peer_block = true;
@@ -2164,7 +2208,7 @@ fn random_spec(rig: &Rig, plan: &Plan, rng: &mut Rng, round: usize) -> RoundSpec
             2 => {
                 peer_own = true;
             }
-            1 => {
+            1 if plan.stake == 0 => {
                 fork = true;
                 items2.push(Item::Transfer { payer: rng.range(2, 5) as usize, fee: pick_fee(rng), hops: rng.below(3) as usize, biggest: false });
             }
@@ -2308,6 +2352,26 @@ fn scripted_spec(rig: &Rig, plan: &Plan, round: usize) -> Option<RoundSpec> {
                 items.push(Item::Issuance);
             }
             Some(RoundSpec { via_thread: true, inject_conflict: false, peer_own: false, peer_block: false, fork: false, items2: vec![], items, gt: if round % 2 == 1 { GtSpec::Valid } else if round == 6 { GtSpec::Invalid } else { GtSpec::None }, gap, label: "through-the-consensus-thread".to_string() })
+        }
+        // a pooled transaction is left out by create (its input aged while another producer's block
+        // arrived) and does NOT carry needed work: the block is built from the rest and must be valid
+        18 => {
+            if tip.id + 1 > plan.gp + 1 && round % 2 == 0 {
+                let items = vec![Item::EdgeSpend { payer: 2, fee: 7_000, dust: false }, Item::Transfer { payer: 4, fee: 300, hops: 1, biggest: false }];
+                Some(RoundSpec { via_thread: false, inject_conflict: false, peer_own: true, peer_block: false, fork: false, items2: vec![], items, gt: GtSpec::None, gap: big, label: "pooled-input-ages-and-is-left-out".to_string() })
+            } else {
+                Some(RoundSpec { via_thread: false, inject_conflict: false, peer_own: false, peer_block: false, fork: false, items2: vec![], items: plain_items, gt: if round % 2 == 1 { GtSpec::Valid } else { GtSpec::None }, gap: big, label: "warm-up".to_string() })
+            }
+        }
+        // staking on: the producer stakes once, then the second node produces genesis_period blocks,
+        // then the producer is asked again
+        19 => {
+            let k = round % (plan.gp as usize + 2);
+            if k >= 1 && k <= plan.gp as usize {
+                Some(RoundSpec { via_thread: false, inject_conflict: false, peer_own: true, peer_block: false, fork: false, items2: vec![], items: vec![], gt: GtSpec::None, gap: big, label: "idle-while-the-second-node-produces".to_string() })
+            } else {
+                Some(RoundSpec { via_thread: false, inject_conflict: false, peer_own: false, peer_block: false, fork: false, items2: vec![], items: plain_items, gt: GtSpec::Valid, gap: big, label: "producer-stakes".to_string() })
+            }
         }
         // a ticket that solves the tip but names the all-zero key
         14 => {
@@ -2479,6 +2543,9 @@ fn main() {
         Plan { kind: 15, seed: 0, gp: 3, stake: 50_000, hb: 10_000, profile: 0, target_blocks: 8, adversarial: 0, thorough: false },
         Plan { kind: 16, seed: 0, gp: 5, stake: 0, hb: 10_000, profile: 0, target_blocks: 16, adversarial: 0, thorough: false },
         Plan { kind: 16, seed: 0, gp: 3, stake: 50_000, hb: 10_000, profile: 0, target_blocks: 10, adversarial: 0, thorough: false },
+        Plan { kind: 18, seed: 0, gp: 3, stake: 0, hb: 10_000, profile: 0, target_blocks: 12, adversarial: 0, thorough: false },
+        Plan { kind: 19, seed: 0, gp: 3, stake: 50_000, hb: 10_000, profile: 0, target_blocks: 14, adversarial: 0, thorough: false },
+        Plan { kind: 19, seed: 0, gp: 5, stake: 50_000, hb: 10_000, profile: 0, target_blocks: 16, adversarial: 0, thorough: false },
     ];
     for _ in 0..nrandom {
         let gp = *rng.pick(&[3u64, 3, 5, 5, 8, 8, 20]);
@@ -2532,7 +2599,7 @@ fn main() {
                 if o.nontrivial && distinct.insert(o.coq.clone()) {
                     summary.nontrivial += 1;
                 }
-                if summary.samples.len() < 3 && o.rounds > 3 && idx >= 18 {
+                if summary.samples.len() < 3 && o.rounds > 3 && idx >= 21 {
                     summary.samples.push(o.desc.clone());
                 }
                 summary.case_descs.push(o.desc);
